@@ -270,10 +270,13 @@ def c10(ctx):
 def c04(ctx):
     thorough = ctx.tier == "thorough"
     V.mc(ctx, "MC_C04", cfg="MC_C04_thorough.cfg" if thorough else "MC_C04.cfg", workers=12)
+    # full width, symbolically: PCR layout inverse and independent of the reserved bits for ALL values
+    # (the PTS layout invariant of the same module does not finish within minutes and is not run)
+    V.apalache(ctx, "Apa_C04", "Init", "PcrInv", length=0, timeout=600)
     summ = V.gen_traces(ctx, shards=12)
     V.validate(ctx, "Trace_C04", summ, V.default_sig, par=12)
     return V.finish(ctx, "model_checking",
-                    rule="MC: Dec(Enc(v)) = v, ISO bit positions, and 'decoding ignores reserved/marker/prefix bits' on 99 bases (single bits, 2^k-1, mixed) x ext values (9 quick / all 299 thorough). "
+                    rule="Apalache: for ALL pcr < 2^33*300 and ALL reserved-bit values the integer reading of the PCR layout is inverse (Apa_C04!PcrInv). MC: Dec(Enc(v)) = v, ISO bit positions, and 'decoding ignores reserved/marker/prefix bits' on 99 bases (single bits, 2^k-1, mixed) x ext values (9 quick / all 299 thorough). "
                          "B3: InsertPCR/ExtractPCR/InsertPTS/gots.ExtractTime/pes.ExtractTime on single-bit and 2^k-1 patterns, every ext for sampled bases, limits +-2, random values, "
                          "prior buffer contents 0x00/0xFF/random with two trailing guard bytes, random byte strings and their single reserved/marker-bit flips; each written byte string and decoded value "
                          "validated by TLC against Timecodes (module Wide for 42-bit arithmetic). End-to-end clauses are validated in C03 (SetPCR/PCR, SetOPCR/OPCR) and C11 (PTS/DTS in PES headers). "
